@@ -59,6 +59,16 @@ CLAIMED = {
          "_qusomatrix.py (after repair D7); harness. The converters multiply by float constants: exact on dyadic coefficients only, "
          "which is what the correspondence generates. to_* of PUBO/PUSO/PCBO/PCSO are covered by C01.",
     technique="Coq proof (induction over keys / term lists) + model/implementation correspondence", ref="§5 C04"),
+ "C09": dict(
+    text="Coq theorems about the model of _solve_bruteforce (the loop with its best / all_sols bookkeeping, the offset and empty "
+         "shortcuts, itertools.product order): C09_min (returned objective is attained by every returned assignment, which is "
+         "valid, and is a lower bound over all valid assignments), C09_all (all_solutions = exactly the valid minimisers, each "
+         "once), C09_none (objective None iff nothing is valid), C09_constant, C09_vars, C09_enumeration (complete, duplicate-free) "
+         "-- for every model, every variable list and every validity predicate. Tied to /repo by comparing objective and solution "
+         "sets for the four functions and the methods, plus an independent enumeration oracle and an unchanged-input check.",
+    note="Trusted: Coq kernel + vm_compute; no axioms; hand-written model; harness. Which minimiser is returned without "
+         "all_solutions depends on Python set order for non-labelled inputs; any minimiser is accepted there.",
+    technique="Coq proof (loop invariant over the enumeration) + model/implementation correspondence", ref="§5 C09"),
 }
 NA_REASON = "check not built yet in this round; see DESIGN.md §8 (order of work)"
 
